@@ -171,6 +171,7 @@ def handleLine (st : State) (line : String) : State × String :=
     | some p, some b =>
       let kind := (pid.toNat?.bind (st.kinds.get? ·)).getD ""
       let modelPanics := p.panics b
+      if impl == "TIMEOUT" then (st, "ok proj=- orc=C14") else
       if impl == "PANIC" then
         (st, if modelPanics then "ok proj=- orc=C14" else "DIFF:panic proj=all orc=C14")
       else match unhexField impl with
